@@ -80,16 +80,16 @@ def opt_obs(tier):
         o.append(ob("opt_%s" % n.replace("-", "_"), "harness_option",
                     "evdns_base_set_option_impl(\"%s\"[short of its last character] + <= 3 arbitrary bytes, value <= 4 bytes or NULL, any flags): result and "
                     "every configuration field == reference; rejected/unselected/near-miss options change nothing; no leak" % n,
-                    defs, unwind=max(U, 24), unwindset=["evdns_base_free_and_unlock.2:16", "evdns_base_set_max_requests_inflight.1:16"],
+                    defs, unwind=max(U, 24), unwindset=["evdns_base_set_max_requests_inflight.1:16"],
                     timeout=900, mem_gb=6))
     o.append(ob("opt_symbolic", "harness_option",
                 "evdns_base_set_option_impl(any text <= %d bytes in an exact object, value <= 4 bytes, any flags) == reference" % (8 if tier == "quick" else 10),
                 ["C39_ON=%d" % (8 if tier == "quick" else 10), "KF_EXCLUDE_INT_WRAP", "KF_EXCLUDE_TIMEVAL_RANGE"], unwind=24,
-                unwindset=["evdns_base_free_and_unlock.2:16", "evdns_base_set_max_requests_inflight.1:16"], timeout=900, mem_gb=8))
+                unwindset=["evdns_base_set_max_requests_inflight.1:16"], timeout=900, mem_gb=8))
     o.append(ob("opt_timeout_kf_range", "harness_option",
                 "evdns_base_set_option_impl(\"timeout...\") on exactly the KF-C39-timeval-range values",
                 ["C39_OPTK=1", "KF_ONLY_TIMEVAL_RANGE"], unwind=24,
-                unwindset=["evdns_base_free_and_unlock.2:16", "evdns_base_set_max_requests_inflight.1:16"], timeout=900, mem_gb=6,
+                unwindset=["evdns_base_set_max_requests_inflight.1:16"], timeout=900, mem_gb=6,
                 expect_fail=["C39: evdns_base_set_option result differs", "C39: configuration after evdns_base_set_option differs",
                              "arithmetic overflow on floating-point typecast", "arithmetic overflow on float"],
                 known_finding="KF-C39-timeval-range"))
@@ -105,26 +105,22 @@ def line_obs(tier):
                 "resolv_conf_parse_line(any line <= %d bytes in an exact object, any flags) on a base with 0/1 nameserver and 0/1 search domain: "
                 "nameserver ring, search list (order, leading dots), ndots, (option,value) pairs handed to the option routine == reference; other "
                 "lines change nothing; no leak (excluding KF-C39-ndots-reset)" % N,
-                ["C39_N=%d" % N, "KF_EXCLUDE_NDOTS_RESET"], unwind=N + 3, instrument=rc, timeout=900, mem_gb=8,
-                unwindset=["evdns_base_free_and_unlock.2:16"]))
+                ["C39_N=%d" % N, "KF_EXCLUDE_NDOTS_RESET"], unwind=N + 3, instrument=rc, timeout=900, mem_gb=8))
     o.append(ob("resolv_line_kf_ndots", "harness_resolv",
                 "the same on exactly the KF-C39-ndots-reset inputs (domain/search line on a base whose ndots is not 1), lines <= 10 bytes",
                 ["C39_N=10", "KF_ONLY_NDOTS_RESET"], unwind=13, instrument=rc, timeout=900, mem_gb=8,
-                unwindset=["evdns_base_free_and_unlock.2:16"],
                 expect_fail=["C39: a domain/search line changed ndots"], known_finding="KF-C39-ndots-reset"))
     o.append(ob("hosts_line_N%d" % H, "harness_hosts",
                 "evdns_base_parse_hosts_line(any line <= %d bytes in an exact object): result and recorded (name, address) entries == reference "
                 "(comment stripped, first field = address without port, remaining fields = names in order); no leak" % H,
-                ["C39_N=%d" % H], unwind=H + 3, timeout=900, mem_gb=8, unwindset=["evdns_base_free_and_unlock.2:16"]))
+                ["C39_N=%d" % H], unwind=H + 3, timeout=900, mem_gb=8))
     o.append(ob("file_split_N%d" % F, "harness_file",
                 "evdns_base_resolv_conf_parse_impl / evdns_base_load_hosts_impl on any %d-byte file: every newline-separated piece reaches the line "
                 "routine exactly once, in order, with the caller's flags; buffer freed; ndots untouched (excluding KF-C39-ndots-reset)" % F,
-                ["C39_N=%d" % F, "C39_CUT_LINE_PARSERS", "KF_EXCLUDE_NDOTS_RESET"], unwind=F + 4, timeout=900, mem_gb=6,
-                unwindset=["evdns_base_free_and_unlock.2:16"]))
+                ["C39_N=%d" % F, "C39_CUT_LINE_PARSERS", "KF_EXCLUDE_NDOTS_RESET"], unwind=F + 4, timeout=900, mem_gb=6))
     o.append(ob("file_split_kf_ndots", "harness_file",
                 "the same on exactly the KF-C39-ndots-reset inputs (resolv.conf without search/domain line parsed with DNS_OPTION_SEARCH, ndots != 1)",
                 ["C39_N=4", "C39_CUT_LINE_PARSERS", "KF_ONLY_NDOTS_RESET"], unwind=8, timeout=900, mem_gb=6,
-                unwindset=["evdns_base_free_and_unlock.2:16"],
                 expect_fail=["C39: parsing a file without search/domain lines changed ndots"], known_finding="KF-C39-ndots-reset"))
     return o
 
